@@ -543,6 +543,19 @@ def s2_hemisphere_check(ctx, c, outs):
     if sgn is not None:
         t[:, 2] = sgn * np.abs(t[:, 2])
     rad = np.rad2deg(np.arccos(np.clip((t @ v.T).max(axis=1), -1, 1)))
+    # the bound PROVED for the model's equal-area mesh of any hemisphere (equal_area_hemisphere_mesh_covers)
+    if c["method"] == "equal_area" and 0.002 <= c["resolution"] <= 360:
+        thm = float(np.cos(c["resolution"] * np.pi / 360) - c["resolution"] / 180)
+        adv = _s2_adversarial("equal_area", float(c["resolution"]))
+        if sgn is not None:
+            adv = adv[sgn * adv[:, 2] >= 0]
+        tt = np.concatenate([t, adv])
+        best = (tt @ v.T).max(axis=1)
+        k = int(np.argmin(best))
+        if best[k] < thm - 1e-12:
+            return (f"sample_S2({c['resolution']}, method='equal_area', {kw}) ({len(v)} vectors): direction {tt[k].tolist()} of the "
+                    f"hemisphere has largest scalar product {best[k]!r} with the mesh < {thm!r}: the covering theorem proved for the "
+                    f"model does not hold for the implementation's mesh")
     # an offset mesh starts up to one step away from the pole / from the equator: one more resolution
     bound = max(float(S2_BOUND[c["method"]](c["resolution"])), 0.9 * c["resolution"]) + c["resolution"]
     if float(rad.max()) > bound:
